@@ -212,7 +212,7 @@ def make_ag_module(base_module, mon):
       return
     rest = {k: v for k, v in opts.items() if k != 'iterate_names'}
     from mc import progspace
-    want = {progspace.DIRECTIVE_KEYS[site % 2]: 1000 + site} if mon.expect_directives else {}
+    want = progspace.directive_expected(site) if mon.expect_directives else {}
     if rest != want:
       mon.bad('opts-directives', '%s of the loop at site %d received options %r, the user wrote %r in that loop' % (kind, site, rest, want))
 
